@@ -333,3 +333,16 @@ def thm_rt_control(e: bytes, e_type: bytes, type_b: bytes, e_crit: bytes, critic
             lemma_tlv_roundtrip(e_val, 0, False, 4, val, empty())
             lemma_tlv_prefix(e_val, empty())
             assert cat(e_val, empty()) == e_val
+
+
+def thm_rt_partial_attribute(e: bytes, e_type: bytes, name_b: bytes, e_vals: bytes, c_vals: bytes, xs: seqbytes, count: int, q: int, tail: bytes) -> None:
+    """PartialAttribute: SEQUENCE { type, SET OF values } as the encoder appends it, read back by the decoder's postcondition."""
+    lemma_tlv_roundtrip(e, 0, True, 16, cat(e_type, e_vals), tail)
+    lemma_tlv_roundtrip(e_type, 0, False, 4, name_b, e_vals)
+    lemma_tlv_roundtrip(e_vals, 0, True, 17, c_vals, empty())
+    assert cat(e_vals, empty()) == e_vals
+    thm_rt_octs(c_vals, xs, len(xs), count, q)
+
+
+def thm_rt_present(e: bytes, attr_b: bytes, tail: bytes) -> None:
+    lemma_tlv_roundtrip(e, 2, False, 7, attr_b, tail)
